@@ -90,8 +90,8 @@ def conv_items(repo):
             src = """pub fn %(fn)s<N: Nd>(nd: &mut N) {
     let a: %(a)s = %(any)s;
     let r: %(b)s = <%(b)s as From<%(a)s>>::from(a);
-    assert!((r.get() as i128) <= %(bm)d, "C04 C05 From<%(a)s> for %(b)s yields an in-range value");
-    assert!(r.get() as i128 == a.get() as i128, "C05 From<%(a)s> for %(b)s preserves the value");
+    check!((r.get() as i128) <= %(bm)d, "C04 C05 From<%(a)s> for %(b)s yields an in-range value");
+    check!(r.get() as i128 == a.get() as i128, "C05 From<%(a)s> for %(b)s preserves the value");
     witness!(nd, a.get() as i128 == %(am)d, "source maximum");
 }
 """ % dict(fn=fn, a=a, b=b, bm=bm, am=newtypes[a][1], any=any_nt(a, newtypes))
@@ -101,7 +101,7 @@ def conv_items(repo):
             src = """pub fn %(fn)s<N: Nd>(nd: &mut N) {
     let a: %(a)s = %(any)s;
     let r: %(b)s = <%(b)s as From<%(a)s>>::from(a);
-    assert!(r as %(cast)s == a.get() as %(cast)s, "C05 From<%(a)s> for %(b)s yields the same mathematical value");
+    check!(r as %(cast)s == a.get() as %(cast)s, "C05 From<%(a)s> for %(b)s yields the same mathematical value");
     witness!(nd, a.get() as i128 == %(am)d, "source maximum");
 }
 """ % dict(fn=fn, a=a, b=b, cast=cast, am=newtypes[a][1], any=any_nt(a, newtypes))
@@ -111,8 +111,8 @@ def conv_items(repo):
             src = """pub fn %(fn)s<N: Nd>(nd: &mut N) {
     let x: %(a)s = nd.%(a)s();
     let r: %(b)s = <%(b)s as From<%(a)s>>::from(x);
-    assert!((r.get() as i128) <= %(bm)d, "C04 C05 From<%(a)s> for %(b)s yields an in-range value");
-    assert!(r.get() as i128 == x as i128, "C05 From<%(a)s> for %(b)s preserves the value");
+    check!((r.get() as i128) <= %(bm)d, "C04 C05 From<%(a)s> for %(b)s yields an in-range value");
+    check!(r.get() as i128 == x as i128, "C05 From<%(a)s> for %(b)s preserves the value");
     witness!(nd, true, "converted");
 }
 """ % dict(fn=fn, a=a, b=b, bm=bm)
@@ -125,13 +125,13 @@ def conv_items(repo):
     let in_range = (a.get() as i128) <= %(bm)d;
     match r {
         Ok(v) => {
-            assert!((v.get() as i128) <= %(bm)d, "C04 C05 TryFrom<%(a)s> for %(b)s yields an in-range value");
-            assert!(in_range, "C04 C05 TryFrom<%(a)s> for %(b)s accepts only in-range input");
-            assert!(v.get() as i128 == a.get() as i128, "C05 TryFrom<%(a)s> for %(b)s preserves the value");
+            check!((v.get() as i128) <= %(bm)d, "C04 C05 TryFrom<%(a)s> for %(b)s yields an in-range value");
+            check!(in_range, "C04 C05 TryFrom<%(a)s> for %(b)s accepts only in-range input");
+            check!(v.get() as i128 == a.get() as i128, "C05 TryFrom<%(a)s> for %(b)s preserves the value");
             witness!(nd, true, "accepted");
         }
         Err(_) => {
-            assert!(!in_range, "C04 C05 TryFrom<%(a)s> for %(b)s rejects only out-of-range input");
+            check!(!in_range, "C04 C05 TryFrom<%(a)s> for %(b)s rejects only out-of-range input");
             witness!(nd, true, "rejected");
         }
     }
@@ -152,13 +152,13 @@ def conv_items(repo):
     let in_range = %(inr)s;
     match r {
         Ok(v) => {
-            assert!((v.get() as i128) <= %(bm)d, "C04 C05 TryFrom<%(a)s> for %(b)s yields an in-range value");
-            assert!(in_range, "C04 C05 TryFrom<%(a)s> for %(b)s accepts only in-range input");
-            assert!(%(eq)s, "C05 TryFrom<%(a)s> for %(b)s preserves the value");
+            check!((v.get() as i128) <= %(bm)d, "C04 C05 TryFrom<%(a)s> for %(b)s yields an in-range value");
+            check!(in_range, "C04 C05 TryFrom<%(a)s> for %(b)s accepts only in-range input");
+            check!(%(eq)s, "C05 TryFrom<%(a)s> for %(b)s preserves the value");
             witness!(nd, true, "accepted");
         }
         Err(_) => {
-            assert!(!in_range, "C04 C05 TryFrom<%(a)s> for %(b)s rejects only out-of-range input");
+            check!(!in_range, "C04 C05 TryFrom<%(a)s> for %(b)s rejects only out-of-range input");
             witness!(nd, true, "rejected");
         }
     }
@@ -174,8 +174,8 @@ def conv_items(repo):
         items.append(("nt_new_ok_" + low, "%s::new over every in-range %s" % (name, rep), """pub fn nt_new_ok_%(low)s<N: Nd>(nd: &mut N) {
     let v: %(rep)s = nd.%(rep)s_le(%(mx)d);
     let r = %(t)s::new(v);
-    assert!(r.get() == v, "C04 C05 %(t)s::new keeps the value");
-    assert!(unsafe { %(t)s::new_unchecked(v) } == r, "C05 %(t)s::new_unchecked agrees with new on valid input");
+    check!(r.get() == v, "C04 C05 %(t)s::new keeps the value");
+    check!(unsafe { %(t)s::new_unchecked(v) } == r, "C05 %(t)s::new_unchecked agrees with new on valid input");
     witness!(nd, v == %(mx)d, "maximum");
 }
 """ % d, "pass", ["C04", "C05", "C18"]))
@@ -187,23 +187,23 @@ def conv_items(repo):
 }
 """ % d, "must_panic", ["C04", "C18"]))
         items.append(("nt_consts_ord_" + low, "%s: MIN/MAX/Default, Eq/Ord/PartialOrd/Hash vs. the numeric value over all pairs" % name, """pub fn nt_consts_ord_%(low)s<N: Nd>(nd: &mut N) {
-    assert!(%(t)s::MIN.get() == 0, "C04 C05 %(t)s::MIN is 0");
-    assert!(%(t)s::MAX.get() == %(mx)d, "C04 C05 %(t)s::MAX is %(mx)d");
-    assert!(<%(t)s as Default>::default().get() == 0, "C04 C05 %(t)s::default() is 0");
+    check!(%(t)s::MIN.get() == 0, "C04 C05 %(t)s::MIN is 0");
+    check!(%(t)s::MAX.get() == %(mx)d, "C04 C05 %(t)s::MAX is %(mx)d");
+    check!(<%(t)s as Default>::default().get() == 0, "C04 C05 %(t)s::default() is 0");
     let a: %(t)s = %(any)s;
     let b: %(t)s = %(any)s;
     let (x, y) = (a.get(), b.get());
-    assert!((a == b) == (x == y), "C05 %(t)s equality agrees with the numeric value");
-    assert!((a != b) == (x != y), "C05 %(t)s inequality agrees with the numeric value");
-    assert!((a < b) == (x < y) && (a <= b) == (x <= y) && (a > b) == (x > y) && (a >= b) == (x >= y),
+    check!((a == b) == (x == y), "C05 %(t)s equality agrees with the numeric value");
+    check!((a != b) == (x != y), "C05 %(t)s inequality agrees with the numeric value");
+    check!((a < b) == (x < y) && (a <= b) == (x <= y) && (a > b) == (x > y) && (a >= b) == (x >= y),
         "C05 %(t)s ordering operators agree with the numeric value");
-    assert!(a.cmp(&b) == x.cmp(&y), "C05 %(t)s Ord agrees with the numeric value");
-    assert!(a.partial_cmp(&b) == Some(x.cmp(&y)), "C05 %(t)s PartialOrd agrees with the numeric value");
-    assert!(core::cmp::max(a, b).get() == core::cmp::max(x, y), "C05 %(t)s max agrees");
-    assert!(%(t)s::MIN <= a && a <= %(t)s::MAX, "C04 C05 every %(t)s lies between MIN and MAX");
-    assert!(crate::numeric::hash_of(&a) == crate::numeric::hash_of(&x), "C05 %(t)s hashes like its numeric value");
+    check!(a.cmp(&b) == x.cmp(&y), "C05 %(t)s Ord agrees with the numeric value");
+    check!(a.partial_cmp(&b) == Some(x.cmp(&y)), "C05 %(t)s PartialOrd agrees with the numeric value");
+    check!(core::cmp::max(a, b).get() == core::cmp::max(x, y), "C05 %(t)s max agrees");
+    check!(%(t)s::MIN <= a && a <= %(t)s::MAX, "C04 C05 every %(t)s lies between MIN and MAX");
+    check!(crate::numeric::hash_of(&a) == crate::numeric::hash_of(&x), "C05 %(t)s hashes like its numeric value");
     let c = a;
-    assert!(c == a && c.clone() == a, "C05 %(t)s Copy/Clone preserve the value");
+    check!(c == a && c.clone() == a, "C05 %(t)s Copy/Clone preserve the value");
     witness!(nd, x < y, "a < b");
     witness!(nd, x == y, "a == b");
 }
@@ -225,9 +225,33 @@ def conv_items(repo):
     return items
 
 
+def lsb_constant_pairs(repo):
+    try:
+        with open(os.path.join(repo, "src", "controller_number_mod.rs")) as f:
+            src = f.read()
+    except OSError:
+        return []
+    names = re.findall(r"pub const (\w+): ControllerNumber\s*=", src)
+    return [(n[:-4], n) for n in names if n.endswith("_LSB") and n[:-4] in names]
+
+
+def lsb_constants_source(repo):
+    pairs = lsb_constant_pairs(repo)
+    out = ["/// Every `X_LSB` constant found in /repo/src equals its MSB constant `X` + 32 (C16).\n",
+           "pub fn c16_lsb_constants<N: Nd>(nd: &mut N) {\n    use helgoboss_midi::controller_numbers::*;\n"]
+    for x, l in pairs:
+        out.append('    check!(%s.get() == %s.get() + 32, "C16 %s equals %s + 32");\n' % (l, x, l, x))
+        out.append('    check!(%s.corresponding_14_bit_lsb_controller_number() == Some(%s), '
+                   '"C16 %s is the 14-bit LSB controller of %s");\n' % (x, l, l, x))
+    out.append('    witness!(nd, true, "%d pairs");\n}\n' % len(pairs))
+    return "".join(out)
+
+
 def conversion_harnesses(repo):
     import registry
-    hs = []
+    hs = [registry.H("c16_lsb_constants", "generated::conv::c16_lsb_constants", ["C16", "C18"],
+                     "the %d (X, X_LSB) constant pairs found in /repo/src/controller_number_mod.rs"
+                     % len(lsb_constant_pairs(repo)))]
     for fn, desc, src, expect, props in conv_items(repo):
         if fn.startswith("nt_parse_"):
             L = int(fn[-1])
@@ -257,9 +281,10 @@ def conversion_harnesses(repo):
 def conversion_source(repo):
     out = ["// @generated from %s/src by /verif/lib/gen.py - do not edit\n" % repo,
            "#![allow(unused_imports, non_snake_case)]\n",
-           "use crate::nd::Nd;\nuse crate::{returned, witness};\nuse helgoboss_midi::*;\n\n"]
+           "use crate::nd::Nd;\nuse crate::{check, returned, witness};\nuse helgoboss_midi::*;\n\n"]
     for fn, desc, src, expect, props in conv_items(repo):
         out.append("/// " + desc + "\n" + src + "\n")
+    out.append(lsb_constants_source(repo))
     return "".join(out)
 
 
